@@ -1166,7 +1166,7 @@ void NifFile::TrimTexturePaths() {
 			return tex;
 
 		// Replace multiple slashes or forward slashes with one backslash
-		tex = std::regex_replace(tex, std::regex("/+|\\\\+"), "\\");
+		tex = std::regex_replace(tex, std::regex("[/\\\\]+"), "\\");
 
 		// Search for the first occurrence of "\textures\" (only if "textures\" isn't at the start)
 		std::smatch match;
